@@ -174,6 +174,10 @@ func DrawConforming(t *rapid.T, o GenOpt) Case {
 	mixedAlgs = o.MixedAlgs
 	defer func() { mixedAlgs = false }()
 	n := rapid.IntRange(1, o.MaxLen).Draw(t, "len")
+	if o.MaxLen >= 6 && rapid.IntRange(0, 24).Draw(t, "longchain") == 0 {
+		// nothing in the rules bounds the length of a chain
+		n = rapid.SampledFrom([]int{7, 8, 9, 12, 16, 17, 31, 32, 33, 64, 65, 100}).Draw(t, "longlen")
+	}
 	subj := drawPrin(t, "subject")
 	var c Case
 	c.Inv.Sub = subj
@@ -227,6 +231,10 @@ func DrawConforming(t *rapid.T, o GenOpt) Case {
 		l := Link{Iss: p[i+1], Aud: p[i], Sub: subj, Cmd: linkCmd[i], Nonce: byte(i)}
 		if o.Policies && rapid.IntRange(0, 2).Draw(t, "haspol") > 0 {
 			m := rapid.IntRange(1, 3).Draw(t, "npol")
+			if rapid.IntRange(0, 14).Draw(t, "longpol") == 0 {
+				// nor the number of statements of a policy
+				m = rapid.SampledFrom([]int{4, 5, 8, 16, 17, 33, 64}).Draw(t, "longpoln")
+			}
 			for j := 0; j < m; j++ {
 				if s, ok := DrawStmt(t, c.Inv.Args, true, fmt.Sprintf("st%d_%d", i, j)); ok {
 					l.Pol = append(l.Pol, s)
